@@ -98,6 +98,9 @@ type config struct {
 	// HTTPServer: the server side is ws.HTTPUpgrader (request parsed by net/http, response written to the
 	// hijacked connection) instead of ws.Upgrader. No ProtocolCustom, no buffer sizes there.
 	HTTPServer bool
+	// Reject: the server's OnRequest hook refuses the handshake: "status" = rejection error with status 403,
+	// "nostatus" = rejection error without a status (documented default 500), "plain" = an ordinary error (500).
+	Reject string
 	// Warm: the measured DebugDialer.Dial is preceded by this many dials through the SAME DebugDialer
 	// value (its own peers): a reused DebugDialer must behave like a new one.
 	Warm int
@@ -173,6 +176,9 @@ func drawConfig(t *rapid.T) config {
 	c.Accept = rapid.SliceOfNDistinct(rapid.SampledFrom(tokenPool), 0, 4, rapid.ID[string]).Draw(t, "accept")
 	c.NoProtoSel = rapid.IntRange(0, 4).Draw(t, "noprotosel") == 0
 	c.HTTPServer = rapid.IntRange(0, 3).Draw(t, "httpserver") == 0
+	if !c.HTTPServer && rapid.IntRange(0, 7).Draw(t, "reject?") == 0 {
+		c.Reject = rapid.SampledFrom([]string{"status", "nostatus", "plain"}).Draw(t, "reject")
+	}
 	if !c.HTTPServer && rapid.IntRange(0, 3).Draw(t, "protocustom") == 0 {
 		c.ProtoCustom = true
 		c.CustomAccept = rapid.SliceOfNDistinct(rapid.SampledFrom(tokenPool), 0, 4, rapid.ID[string]).Draw(t, "customaccept")
@@ -252,6 +258,16 @@ func (c config) upgrader() ws.Upgrader {
 	u := ws.Upgrader{ReadBufferSize: c.SRB, WriteBufferSize: c.SWB}
 	if !c.NoProtoSel {
 		u.Protocol = func(p []byte) bool { return contains(c.Accept, string(p)) }
+	}
+	switch c.Reject {
+	case "status":
+		u.OnRequest = func([]byte) error {
+			return ws.RejectConnectionError(ws.RejectionStatus(403), ws.RejectionReason("members only"))
+		}
+	case "nostatus":
+		u.OnRequest = func([]byte) error { return ws.RejectConnectionError(ws.RejectionReason("no")) }
+	case "plain":
+		u.OnRequest = func([]byte) error { return errors.New("not today") }
 	}
 	if c.ProtoCustom {
 		u.ProtocolCustom = func(v []byte) (string, bool) {
@@ -459,6 +475,18 @@ func TestPeersAgree(t *testing.T) {
 		if r.offersChanged != "" {
 			t.Fatalf("%s\nresponse:\n%s", r.offersChanged, r.resp)
 		}
+		if c.Reject != "" && !r.srvWriteFailed {
+			want := 500
+			if c.Reject == "status" {
+				want = 403
+			}
+			hx.Class("pair/rejected-by-hook=" + c.Reject)
+			se, ok := r.cliErr.(ws.StatusError)
+			if r.srvErr == nil || !ok || int(se) != want {
+				t.Fatalf("the server's OnRequest hook rejected the handshake (%s): server err=%v; the dialer must report status %d, it reports %v\nresponse:\n%s", c.Reject, r.srvErr, want, r.cliErr, r.resp)
+			}
+			return
+		}
 		if sel := c.selection(); sel != "" && !contains(c.Protocols, sel) {
 			// the caller offered (through its own header writer) a protocol its Dialer.Protocols does not list and
 			// the server picked it: the dialer rightly refuses what the server rightly selected — not a disagreement
@@ -471,6 +499,14 @@ func TestPeersAgree(t *testing.T) {
 		}
 		if c.ProtoCustom || len(c.ExtraProto) > 0 {
 			hx.Class(fmt.Sprintf("pair/protocustom=%v/extraline=%v/selected=%v", c.ProtoCustom, len(c.ExtraProto) > 0, c.selection() != ""))
+		}
+		if c.ExtMode == "custom-error" {
+			for _, o := range c.Offers {
+				if o.Name == "x-b" && (r.srvErr == nil || r.cliErr == nil) {
+					// the negotiator returns an error for this offer: "the handshake fails", wherever the offer stands in its line
+					t.Fatalf("the server's Negotiate returned an error for the offered extension x-b, yet the handshake went through: server err=%v client err=%v\nrequest:\n%s\nresponse:\n%s", r.srvErr, r.cliErr, r.req, r.resp)
+				}
+			}
 		}
 		if (r.cliErr == nil) != (r.srvErr == nil) {
 			t.Fatalf("peers disagree on the outcome: client err=%v, server err=%v\nrequest:\n%s\nresponse:\n%s", r.cliErr, r.srvErr, r.req, r.resp)
